@@ -93,9 +93,10 @@ class BuilderWorld(World):
         if md.get("metadata_spec_version") != lib.common.SECURITY_METADATA_SPEC_VERSION:
             run.violate(("C16",), "spec-version", "%s declares spec version %r" % (fn, md.get("metadata_spec_version")), "spec-version")
             return False
-        if set(md) != {"type", "version", "metadata_spec_version", "timestamp", "expiration", "delegations"}:
-            run.violate(("C16",), "field-set", "%s returned fields %r" % (fn, sorted(md)), "field-set")
-            return False
+        for k in ("type", "version", "metadata_spec_version", "timestamp", "expiration", "delegations"):
+            if k not in md:
+                run.violate(("C16",), "field-missing", "%s returned metadata without %r" % (fn, k), "field-missing:" + k)
+                return False
         w = self.calls.raw("wrap_as_signable", md)
         if not w.ok:
             run.violate(("C16",), "builder-unwrappable", "%s output cannot be wrapped: %r" % (fn, w))
